@@ -188,7 +188,7 @@ def junk_ex_cases(rng, count):
     every command name and option, arguments of random printable / multi-byte text, lines around and beyond
     the 512-byte limit, empty buffers"""
     out = []
-    pieces = ["/", "?", "\\", "|", "%", "#", "'", "\"", "+", "-", ",", ";", " ", "0", "9", "99999", "a", "é", "日", "\\(", "\\)", "[", "]", "*", "^", "$", ".", "&", "~", "{", "}", "<", ">", "=", "!", "@", "\t"]
+    pieces = ["/", "?", "\\", "|", "%", "#", "'", "\"", "+", "-", ",", ";", " ", "0", "9", "99999", "a", "b", "x", "\\(", "\\)", "[", "]", "*", "^", "$", ".", "&", "~", "{", "}", "<", ">", "=", "!", "@", "\t"]
     for _ in range(count):
         content = rand_content(rng) if rng.below(5) else None
         lines = []
@@ -202,7 +202,7 @@ def junk_ex_cases(rng, count):
             elif m == 7:
                 n = rng.choice([500, 509, 510, 511, 512, 513, 520, 1023, 1024, 2000])
                 body = rng.choice(["s/a/", "g/x/", "a ", "e ", "w ", "!", "", "1,2", "se ", "ft ", "/"])
-                l = body + rng.choice(["x", "é", "a|", "\\", "/"]) * n
+                l = body + rng.choice(["x", "a é ", "a|", "\\", "/"]) * n
                 l = l[:n + len(body)]
             elif m == 8:
                 l = rng.choice(["a", "i", "c"]); lines.append(region(rng, 5) + l); lines += text_block(rng); continue
